@@ -31,3 +31,51 @@ package dense
 //@   ensures  [len]    len(h.inQueue) == len(old(h.inQueue))
 //@   ensures  [member] !inq(h.inQueue, result)
 //@   ensures  [others] forall m int :: {inq(h.inQueue, m)} 0 <= m && m < 64*len(h.inQueue) && m != result ==> inq(h.inQueue, m) == inq(old(h.inQueue), m)
+
+// ---- one round of the dense solver's main loop (propagate) ----
+// the out-edges of a node in the (deterministic) order in which Out yields them
+//@ extern (honnef.co/go/tools/internal/xtools-internal/graph.Graph).Out(node int) iter.Seq
+//@   pure
+//@ ghost outSeq(g graph.Graph, n int) []int
+// the fact an in-edge contributes: the identity as long as its source block was never visited
+//@ ghost efact(l L, bs []blockInfo, e blockEdge) Fact = bs[e.node].dirty ? l.Ident() : bs[e.node].out[e.i]
+// the merge of the facts of the first n in-edges (n >= 1)
+//@ ghost mfold(l L, bs []blockInfo, ps []blockEdge, n int) Fact = n <= 1 ? efact(l, bs, ps[0]) : l.Merge(mfold(l, bs, ps, n-1), efact(l, bs, ps[n-1]))
+// the element lattice's laws, stated for this package's type parameter Fact (the same laws as
+// group semilattice of analysis/dfa: they are the hypothesis of the property)
+//@ group lat
+//@ axiom [idem]   forall l L, x Fact :: {l.Merge(x, x)} l.Merge(x, x) == x
+//@ axiom [equals] forall l L, x Fact, y Fact :: {l.Equals(x, y)} l.Equals(x, y) == (x == y)
+//@ group
+//@ func (*fwdBuilder).merge
+//@   uses     lat
+//@   requires fb != nil
+//@   pure
+//@   reads    fwdBuilder.l
+//@   ensures  result == fb.l.Merge(a, b)
+// For the block taken from the worklist:
+//   [inmerge] the new input is the merge of the facts on its in-edges (or its old input if it
+//             has no in-edges);
+//   [out]     after the successor loop, the stored fact of every out-edge processed so far is
+//             the transfer of that input along the edge;
+//   [enq]     a successor whose edge fact changed is on the worklist.
+// The global claim (least fixpoint on termination) is NOT derived from these step facts here.
+//@ func (*fwdBuilder).propagate
+//@   uses     lat
+//@   requires fb != nil
+// (the compact graph's node ids index the worklist bitmap, which init sized for them)
+//@   requires forall n int, k int :: {outSeq(fb.cfg, n)[k]} 0 <= outSeq(fb.cfg, n)[k] && outSeq(fb.cfg, n)[k] < 64*len(fb.queue.inQueue)
+//@   loop 1   invariant [bitmap]  len(fb.queue.inQueue) == len(old(fb.queue.inQueue))
+//@   nosafe   all
+//@   may_panic
+//@   modifies heap
+//@   purecall fb.transfer
+//@   loop 2   index e
+//@   loop 2   invariant [first]   first == (e == 0)
+//@   loop 2   invariant [inmerge] e > 0 ==> in == mfold(fb.l, fb.blocks, fb.blocks[bi].preds, e)
+//@   loop 3   yields    succNum == outSeq(fb.cfg, bi)[i]
+//@   loop 3   invariant [out]     i >= 0 && (forall j int :: {fb.blocks[bi].out[j]} 0 <= j && j < i ==> fb.blocks[bi].out[j] == apply(fb.transfer, predID, fb.nodeMap.Value(outSeq(fb.cfg, bi)[j]), in))
+//@   loop 3   ghost     out0 = fb.blocks[bi].out
+//@   loop 3   ghost     d0 = fb.blocks[bi].dirty
+//@   loop 3   invariant [enq]     forall j int :: {outSeq(fb.cfg, bi)[j]} 0 <= j && j < i && (d0 || out0[j] != fb.blocks[bi].out[j]) ==> inq(fb.queue.inQueue, outSeq(fb.cfg, bi)[j])
+//@   loop 3   invariant [same]    len(fb.queue.inQueue) == len(loopentry(fb.queue.inQueue)) && fb.blocks[bi].dirty == d0 && len(fb.blocks[bi].out) == len(out0) && (forall j int :: {fb.blocks[bi].out[j]} i <= j ==> fb.blocks[bi].out[j] == out0[j])
